@@ -7034,11 +7034,27 @@ fn owns_running_block(expr: &Expression, expr_state: &ExpressionState) -> bool {
     ) && matches!(expr_state, ExpressionState::EvaluatedSubexpressions)
 }
 
+/// Is this the state of a `while` or `for` loop whose body is
+/// currently being evaluated?
+fn is_running_loop(expr_state: &ExpressionState) -> bool {
+    matches!(
+        expr_state,
+        ExpressionState::PartiallyEvaluated(BlockState::DoneRunBlock)
+    )
+}
+
 fn eval_break(env: &mut Env, expr_value_is_used: bool) {
     // Pop all the currently evaluating expressions until we are no
     // longer inside the innermost loop.
     while let Some((expr_state, expr)) = env.current_frame_mut().exprs_to_eval.pop() {
         match &expr.expr_ {
+            Expression_::While(_, _) | Expression_::ForIn(_, _, _)
+                if !is_running_loop(&expr_state) =>
+            {
+                // A loop that is only waiting to be evaluated (a
+                // later statement in a block we're leaving), not
+                // the loop we're breaking out of.
+            }
             Expression_::While(_, _) => {
                 // We're leaving the loop body early, so its bindings
                 // block has not been popped yet.
@@ -7094,10 +7110,14 @@ fn eval_continue(env: &mut Env) {
     // Pop all the currently evaluating expressions until we are back
     // at the loop.
     while let Some((expr_state, expr)) = env.current_frame_mut().exprs_to_eval.pop() {
+        // A loop that is only waiting to be evaluated (a later
+        // statement in a block we're leaving) is not the loop we're
+        // continuing.
         if matches!(
             expr.expr_,
             Expression_::While(_, _) | Expression_::ForIn(_, _, _)
-        ) {
+        ) && is_running_loop(&expr_state)
+        {
             // TODO: this needs to clean up any items pushed to the value stack.
             // E.g. in `1 + continue`.
 
